@@ -45,6 +45,13 @@ pub fn bounded<T>(cap: usize) -> (Sender<T>, Receiver<T>) {
     make(Some(cap))
 }
 
+/// a channel that never delivers anything (its sender is kept alive for ever)
+pub fn never<T>() -> Receiver<T> {
+    let (s, r) = bounded::<T>(1);
+    std::mem::forget(s);
+    r
+}
+
 pub fn unbounded<T>() -> (Sender<T>, Receiver<T>) {
     make(None)
 }
